@@ -179,6 +179,9 @@ def check_c05(tier):
     rep.add("negative_control", corrupted_records_rejected=2)
     rep.assumptions = ["files whose verdict depends on net/url, X.509 parsing, an odd section-lengths count, bytes after a nested header map, or a missing trailing "
                        "length item are classified 'either': only 'no panic' (and content equality where extractable) is demanded"]
+    # the reader's verdict must not depend on how the file is delivered (ReaderFaults.tla)
+    from rf_checks import reader_faults
+    reader_faults(rep, "C05", ["bundle", "magic"], tier)
     return rep.finish()
 
 
